@@ -82,13 +82,15 @@ void FileManager::trimString(std::string& _string) const {
 void FileManager::extractQuotedText(std::string& _string) const {
 
     // Trim Both leading and trailing quote marks
-    size_t start = _string.find_first_of("\""); ++start;
-    size_t end = _string.find_last_not_of("\"");
+    size_t start = _string.find_first_of("\"");
+    size_t end = _string.find_last_of("\"");
 
-    if((std::string::npos == start) || (std::string::npos == end)) {
+    if((std::string::npos == start) || (end <= start)) {
         _string = "";
     } else {
-        _string = _string.substr(start, end - start + 1);
+        // everything between the first and the last quote mark: the text
+        // itself may end with (or contain) quote marks
+        _string = _string.substr(start + 1, end - start - 1);
     }
 }
 
